@@ -141,3 +141,39 @@ PROPS["C12"] = {
         {"engine": "unit", "test": "TestC12MalformedZstd", "env": {"GOMAXPROCS": "1"}, "quick": {"shards": 2, "checks": 1000, "timeout": 500}, "thorough": {"shards": 8, "checks": 25000, "timeout": 3400}},
     ],
 }
+
+PROPS["C13"] = {
+    "level": "exploration",
+    "rule": ("Exhaustive product, every cell visited in every run: 11 Accept-Encoding values (none, gzip, br, both orders, deflate, mixed, identity, zstd, no-space list) x 7 stored-variant subsets + the cacheable path (Cacheable() on a raw body) x "
+             "min-length {0,1,100,1024} x sizes {0, min-1, min, min+1, 4*min+57} x 8 content-type/filter combinations; 2 (quick) or 40 (thorough) PRNG bodies per cell. Oracle = reference table written from the statement "
+             "(stored br, then stored gzip, verbatim; too small or filtered -> identity; br over gzip; neither accepted -> identity; sizes equal to or straddling the threshold accept either), best-compression pre-compression checked byte-for-byte against gzip level 9. "
+             "Non-trivial = every cell except (no Accept-Encoding, raw only, not cacheable); distinct by cell x body seed."),
+    "assumptions": ["Fill is driven through the exported HTTPResponse API with an elton context; the per-server defaults (1 KiB when unset, filter) are checked end-to-end by the C05/C16 engines"],
+    "exhaustive_part": "all cells of the decision table are enumerated in every run; bodies per cell are sampled",
+    "jobs": [
+        {"engine": "unit", "test": "TestC13Table", "rapid": False, "quick": {"shards": 11, "cases": 2, "timeout": 500}, "thorough": {"shards": 11, "cases": 40, "timeout": 3400}},
+    ],
+}
+PROPS["C14"] = {
+    "level": "exploration",
+    "rule": ("TestC14Exhaustive: every list of 1..3 locations over hosts {a.test,b.test} x prefixes {/a,/a/b,/b} (32 shapes -> 33 824 configs) x every server name list x 3 request hosts x 6 request URIs "
+             "(thorough: + every list of 4 locations over 16 shapes); TestC14Random: up to 8 locations, duplicate names, 5 hosts, 7 prefixes, unknown names. Oracle = reference matcher (result matches and is of the best class present; nil iff nothing matches; unlisted never used). "
+             "Non-trivial = >=2 matching locations of >=2 classes, or nothing listed matches while an unlisted location would. Exhaustive lookups are distinct by construction and counted by the test."),
+    "assumptions": ["the exported NewLocations(...).Get is the lookup the proxy uses (location.Get on the default list); end-to-end routing incl. the 5xx answer is exercised by the C15/C16 engines"],
+    "exhaustive_part": "all configurations of up to 3 locations over the stated universe",
+    "jobs": [
+        {"engine": "unit", "test": "TestC14Exhaustive", "rapid": False, "quick": {"shards": 1, "timeout": 500}, "thorough": {"shards": 1, "timeout": 3400}},
+        {"engine": "unit", "test": "TestC14Random", "quick": {"shards": 4, "checks": 20000, "timeout": 500}, "thorough": {"shards": 16, "checks": 300000, "timeout": 3400}},
+    ],
+}
+PROPS["C17"] = {
+    "level": "exploration",
+    "rule": ("Structured configurations (0-3 compress profiles, 1-3 caches/upstreams/locations, 0-3 servers; names, remarks and values from a pool of YAML-sensitive strings) valid by construction, one third mutated by exactly one of 23 defect kinds "
+             "(dangling references, over-long names, bad duration/size/regexp/policy/addr/prefix/key:value/hostname, non-positive size, empty lists). Oracle: accepted => reference closure check passes; injected defect => rejected; Write agrees with Validate; Read(Write(c)) == c up to nil/empty and display-only fields. "
+             "Non-trivial = accepted with >=1 server, location, upstream and a name/value needing YAML quoting, or rejected with exactly one defect. The 'apply' part (no lookup fails after applying an accepted config) runs in the C16 engine."),
+    "assumptions": ["the file client (InitDefaultClient on a temp file) is the persistence used; etcd is not available offline"],
+    "jobs": [
+        {"engine": "unit", "test": "TestC17", "quick": {"shards": 8, "checks": 2500, "timeout": 500}, "thorough": {"shards": 16, "checks": 60000, "timeout": 3400}},
+        {"engine": "unit", "test": "TestC17ProbeLevelsKey", "rapid": False, "probe": True, "quick": {"shards": 1, "timeout": 60}, "thorough": {"shards": 1, "timeout": 60}},
+    ],
+}
